@@ -34,10 +34,19 @@ impl Observation {
         matches!(self.outcome, Outcome::Returned(_))
     }
     pub fn same_behaviour(&self, other: &Observation) -> bool {
+        if self.outcome == Outcome::NoTermination && other.outcome == Outcome::NoTermination {
+            // two diverging runs are cut at different points: their logs must agree on the common prefix
+            let n = self.log.len().min(other.log.len());
+            return self.log[..n] == other.log[..n];
+        }
         self.outcome == other.outcome && self.log == other.log
     }
     pub fn render(&self) -> String {
-        format!("{:?} log={:?}", self.outcome, self.log)
+        if self.log.len() > 16 {
+            format!("{:?} log={:?} ... ({} more entries)", self.outcome, &self.log[..16], self.log.len() - 16)
+        } else {
+            format!("{:?} log={:?}", self.outcome, self.log)
+        }
     }
 }
 
